@@ -149,6 +149,19 @@ def run_shard(spec, acc):
                 if m1 is None or len(m1.fields) != len(m0.fields):
                     acc.violation("preferences-change-message-shape", f"{d.id}: message missing or field count changed", w)
                     continue
+                # the very same line once more on the same decoder (instruments repeat their readings all the time): the
+                # first result must still stand, and the second must be equal to it
+                p1 = project.msg_proj(m1)
+                try:
+                    m1b = dec.decode_basic_string(line, already_combined=True)
+                except Exception as e:  # noqa: BLE001
+                    acc.violation("preferences-make-decode-fail", f"{d.id} (same line a second time): {type(e).__name__}: {e}", w)
+                    continue
+                acc.count("repeated_decodes_compared")
+                if project.msg_proj(m1b) != p1 or project.msg_proj(m1) != p1:
+                    acc.violation("repeated-payload-converted-differently", f"{d.id}: the same line decoded twice on one decoder with preferences gives different messages "
+                                  f"(or the first result changed afterwards)", w)
+                    continue
                 if project.msg_proj(m0)[:7] != project.msg_proj(m1)[:7] or m0.hash != m1.hash:
                     acc.violation("preferences-change-header", f"{d.id}: header/hash changed by preferences", w)
                 n_conv = 0
